@@ -122,7 +122,7 @@ def run(ctx):
         import traceback
         for fn, args in ((_oracle_reference_matrices, (ctx, relems, tr)), (_oracle_tind_mapping, (ctx, meshes, tr)),
                          (_oracle_repeated_bases, (ctx, meshes, tr)), (_oracle_given_quadrature, (ctx, meshes, tr)),
-                         (_oracle_subset_sequences, (ctx, meshes, tr)), (_oracle_order_sweep, (ctx, tr)),
+                         (_oracle_subset_sequences, (ctx, meshes, tr)), (_oracle_order_sweep, (ctx, tr)), (_oracle_derived_bases, (ctx, tr)),
                          (_oracle_cells, (ctx, meshes, tr)), (_oracle_facets, (ctx, meshes, tr)), (_oracle_invariance, (ctx, meshes, tr)),
                          (_oracle_lagrange, (ctx, tr)), (_oracle_partition_of_unity, (ctx, meshes, tr))):
             try:
@@ -543,6 +543,85 @@ def _oracle_given_quadrature(ctx, meshes, tr):
                 tr.cmp(f'given-quadrature:{kind}:facets', f'Functional(x^{list(e)}) over the boundary with quadrature = the order-{kf} rule and intorder=1',
                        float(functional_of(pl).assemble(fb)), X.facet_integral_value(m, pl, fs), scale_of(m, pl, fone),
                        {**mesh_data(m), 'rule_order': kf, 'intorder': 1, 'monomial': list(e)})
+
+
+# ---- bases obtained through the convenience constructors, every order
+
+def _same_rule(b1, b2):
+    return (np.asarray(b1.X).shape == np.asarray(b2.X).shape and np.array_equal(np.asarray(b1.X), np.asarray(b2.X))
+            and np.array_equal(np.asarray(b1.W), np.asarray(b2.W)))
+
+
+def _oracle_derived_bases(ctx, tr):
+    """basis.boundary(intorder=k), basis.boundary(facets, intorder=k), basis.with_elements(cells), basis.with_element(elem)
+    (and the FacetBasis counterparts where they exist): same quadrature rule as the directly constructed basis of that order
+    (X / W identical) and exact integrals of monomials up to that order, for every order the tables offer"""
+    import skfem
+    from skfem.assembly import Basis, FacetBasis
+    rng = ctx.rng
+    q = ctx.quick()
+    fcaps = {'tri': 12 if q else 30, 'quad': 12 if q else 30, 'tet': 40, 'hex': 7 if q else 12}
+    ccaps = {'line': 12 if q else 30, 'tri': 40, 'tet': 40, 'quad': 9 if q else 16, 'hex': 5 if q else 8, 'wedge': 40}
+    other = {'line': skfem.ElementLineP2, 'tri': skfem.ElementTriP2, 'tet': skfem.ElementTetP2, 'quad': skfem.ElementQuad2,
+             'hex': skfem.ElementHex2, 'wedge': skfem.ElementWedge1}
+    for kind in ('line', 'tri', 'tet', 'quad', 'hex', 'wedge'):
+        m = _small_mesh(kind, rng)
+        d = m.p.shape[0]
+        elem = default_elem(m)
+        one = {tuple([0] * d): Fraction(1)}
+        measure = float(sum(X.cell_integrals(m, one)))
+        nt_ = m.t.shape[1]
+        cells = sorted(rng.sample(range(nt_), max(1, nt_ // 2)))
+        sub_measure = float(sum(X.cell_integrals(m, one, cells)))
+        # cell bases: with_elements / with_element keep the rule of the basis they are derived from
+        for n in _offered_orders(elem.refdom, ccaps[kind]):
+            b = Basis(m, elem, intorder=n)
+            derived = [('with_elements', b.with_elements(np.array(cells)), cells, sub_measure),
+                       ('with_element', b.with_element(other[kind]()), None, measure)]
+            for name, bd, cs, meas in derived:
+                ctx.count(('derived-cells', kind, name, n), nontrivial=True)
+                if not _same_rule(bd, b):
+                    ctx.fail(f'derived-basis:{kind}:{name}:rule', f'Basis(.., intorder={n}).{name}(..) on a {kind} mesh does not keep the quadrature rule '
+                             f'({np.asarray(bd.W).shape[0]} points instead of {np.asarray(b.W).shape[0]})',
+                             {**mesh_data(m), 'intorder': n, 'constructor': name})
+                e = [e for e in monos(d, n) if sum(e) == n][0]
+                pl = X.monomial(e)
+                tr.cmp(f'derived-basis:{kind}:{name}', f'Functional(x^{list(e)}) with Basis(.., intorder={n}).{name}(..) on a {kind} mesh',
+                       float(functional_of(pl).assemble(bd)), float(sum(X.cell_integrals(m, pl, cs))), _tight_scale(m, e, measure),
+                       {**mesh_data(m), 'intorder': n, 'monomial': list(e), 'constructor': name, 'elements': cs})
+        if kind not in fcaps:
+            continue
+        cb = Basis(m, elem)
+        bnd = m.boundary_facets()
+        nf = m.facets.shape[1]
+        some = np.array(sorted(rng.sample(range(nf), max(1, nf // 3))))
+        for n in _offered_orders(elem.refdom.brefdom, fcaps[kind]):
+            for name, fs, fb in (('boundary(intorder)', bnd, cb.boundary(intorder=n)),
+                                 ('boundary(facets,intorder)', some, cb.boundary(some, intorder=n))):
+                direct = FacetBasis(m, elem, facets=fs, intorder=n)
+                ctx.count(('derived-facets', kind, name, n), nontrivial=True)
+                if not _same_rule(fb, direct):
+                    ctx.fail(f'derived-basis:{kind}:{name}:rule', f'Basis(..).{name} with intorder={n} on a {kind} mesh does not use the rule of '
+                             f'FacetBasis(.., intorder={n}) ({np.asarray(fb.W).shape[0]} points instead of {np.asarray(direct.W).shape[0]})',
+                             {**mesh_data(m), 'intorder': n, 'constructor': name, 'facets': np.asarray(fs).tolist()})
+                fone = max(X.facet_integral_value(m, one, fs), 1.0)
+                for e in [e for e in monos(d, n) if sum(e) == n][:2]:
+                    pl = X.monomial(e)
+                    tr.cmp(f'derived-basis:{kind}:{name}', f'Functional(x^{list(e)}) with Basis(..).{name}, intorder={n}, on a {kind} mesh',
+                           float(functional_of(pl).assemble(fb)), X.facet_integral_value(m, pl, fs), _tight_scale(m, e, fone),
+                           {**mesh_data(m), 'intorder': n, 'monomial': list(e), 'constructor': name, 'facets': np.asarray(fs).tolist()})
+            if hasattr(FacetBasis, 'with_element'):
+                fb0 = FacetBasis(m, elem, facets=bnd, intorder=n)
+                fbe = fb0.with_element(other[kind]())
+                if not _same_rule(fbe, fb0):
+                    ctx.fail(f'derived-basis:{kind}:FacetBasis.with_element:rule', f'FacetBasis(.., intorder={n}).with_element(..) on a {kind} mesh does not keep the rule',
+                             {**mesh_data(m), 'intorder': n})
+                e = [e for e in monos(d, n) if sum(e) == n][0]
+                pl = X.monomial(e)
+                fone = max(X.facet_integral_value(m, one, bnd), 1.0)
+                tr.cmp(f'derived-basis:{kind}:FacetBasis.with_element', f'Functional(x^{list(e)}) with FacetBasis(.., intorder={n}).with_element(..)',
+                       float(functional_of(pl).assemble(fbe)), X.facet_integral_value(m, pl, bnd), _tight_scale(m, e, fone),
+                       {**mesh_data(m), 'intorder': n, 'monomial': list(e), 'facets': np.asarray(bnd).tolist()})
 
 
 # ---- several different cell / facet subsets of EQUAL size, one after the other on ONE long-lived mesh object
